@@ -182,8 +182,40 @@ def late_bound_closures(fn: ast.AST) -> List[tuple]:
                         nm = par.func.attr if isinstance(par.func, ast.Attribute) else (par.func.id if isinstance(par.func, ast.Name) else "")
                         if par.func is c or nm in IMMEDIATE_CONSUMERS:
                             continue
+                else:
+                    # a nested def that is only ever called on the spot (never stored, passed on or returned) is consumed in its iteration
+                    shadowed = set()
+                    for st2 in lp.body:
+                        for sc in ast.walk(st2):
+                            if isinstance(sc, (ast.Lambda, ast.FunctionDef)) and sc is not c and any(a_.arg == c.name for a_ in sc.args.args + sc.args.kwonlyargs):
+                                shadowed |= {id(x) for x in ast.walk(sc)}
+                    uses = [x for st2 in lp.body for x in ast.walk(st2) if isinstance(x, ast.Name) and x.id == c.name and isinstance(x.ctx, ast.Load)
+                            and id(x) not in shadowed]
+                    called = [x for st2 in lp.body for x in ast.walk(st2) if isinstance(x, ast.Call) and isinstance(x.func, ast.Name) and x.func.id == c.name]
+                    if len(uses) == len(called):
+                        continue            # never referenced, or only ever called in place
                 out.append((c, lp, cap))
     return out
+
+
+def closure_sweep(idx, res, rule: str, prefixes) -> int:
+    """Every function (and the module-level code) of the given files: no closure over a variable a loop rebinds escapes its iteration.
+    Findings only; returns the number of code units looked at."""
+    n = 0
+    for rel in sorted(idx.modules):
+        if not any(rel.startswith(p_) for p_ in prefixes):
+            continue
+        m = idx.modules[rel]
+        units = [(fi.qual, fi.node, fi) for fi in m.functions.values() if "." not in fi.qual or fi.qual.count(".") == 1]
+        units.append(("<module>", ast.Module(body=[st for st in m.tree.body if not isinstance(st, (ast.FunctionDef, ast.AsyncFunctionDef, ast.ClassDef))], type_ignores=[]), None))
+        for qual, node, fi in units:
+            n += 1
+            for c, lp, cap in late_bound_closures(node):
+                where = "%s:%d" % (rel, getattr(c, "lineno", 0))
+                res.find(rule, "%s/%s/late-bound-%s" % (rule, qual if fi is None else fi.qual, "+".join(cap)), where, qual, ast.unparse(c)[:80],
+                         "%s creates `%s` inside a loop and keeps it; the closure captures the variable %s, not its value: once the loop has finished "
+                         "every such closure sees the value of the last iteration" % (qual, ast.unparse(c)[:60], "/".join(cap)))
+    return n
 
 
 def closure_rule(idx, res, rule: str, targets) -> int:
@@ -629,3 +661,25 @@ def nesting_atoms(fn: ast.AST, target: ast.AST) -> List[Tuple[ast.AST, bool]]:
 def under_condition(fn: ast.AST, target: ast.AST, pred) -> bool:
     """Is *target* nested under ifs that imply an atom (atom, truth) accepted by *pred*?"""
     return any(pred(a, t) for a, t in nesting_atoms(fn, target))
+
+
+def fromkeys_sweep(idx, res, rule: str, prefixes) -> int:
+    """``dict.fromkeys(keys, {})`` / ``fromkeys(keys, [])``: one and the same object is stored under every key - filling the entry of
+    one key fills them all.  Findings only; returns the number of fromkeys calls seen."""
+    n = 0
+    for rel in sorted(idx.modules):
+        if not any(rel.startswith(p_) for p_ in prefixes):
+            continue
+        for fi in idx.modules[rel].functions.values():
+            if "." in fi.qual and fi.qual.count(".") > 1:
+                continue
+            for c in ast.walk(fi.node):
+                if isinstance(c, ast.Call) and isinstance(c.func, ast.Attribute) and c.func.attr == "fromkeys" and len(c.args) == 2:
+                    n += 1
+                    v = c.args[1]
+                    shared = isinstance(v, (ast.Dict, ast.List, ast.Set)) or (isinstance(v, ast.Call) and isinstance(v.func, ast.Name) and v.func.id in ("dict", "list", "set", "defaultdict"))
+                    if shared:
+                        res.find(rule, "%s/%s/fromkeys-shared-value" % (rule, fi.qual), fi.loc(c), fi.qual, ast.unparse(c)[:90],
+                                 "%s builds a table with %s: fromkeys stores the *same* object under every key, so what is written for one key "
+                                 "(one scenario, one agent type) shows up under all of them" % (fi.qual, ast.unparse(c)[:70]))
+    return n
